@@ -234,12 +234,12 @@ def pipeline_of(plan):
 def summary_of(shape, table, past, fs):
     return {"shape": "Refuse" if shape == "Gather" else shape, "table": table, "shardlimit": past.get("limit", -1) if shape != "Gather" else -1,
             "shardorder": len(past.get("order", [])) if shape != "Gather" else 0, "merges": sorted({a["f"] for a in fs["aggs"]}),
-            "ndivs": len(fs["divs"]), "flimit": fs["limit"], "foffset": fs["offset"]}
+            "ndivs": min(len(fs["divs"]), 1), "flimit": fs["limit"], "foffset": fs["offset"]}
 
 
 def model_summaries(s):
     return [{"shape": p["shape"], "table": p["table"], "shardlimit": p["shardlimit"], "shardorder": p["shardorder"],
-             "merges": sorted(set(p["merges"])), "ndivs": p["ndivs"], "flimit": p["flimit"], "foffset": p["foffset"]} for p in s["plans"]]
+             "merges": sorted(set(p["merges"])), "ndivs": min(p["ndivs"], 1), "flimit": p["flimit"], "foffset": p["foffset"]} for p in s["plans"]]
 
 
 def known_for(ctx, s, flavour):
@@ -328,7 +328,9 @@ def conformance(ctx, stmts, plan_sel, e2e_sel, data_name, st, max_records=None, 
             drift[kind] += 1
             if len(ctx.notes) < 12:
                 ctx.notes.append(f"distplan drift ({kind}): `{s['sql']}` model {ms} code {summ}")
-        rec = {"kind": "plan", "q": s["q"], "usesd": s["usesd"], "data": data_name, "table": table, "shape": shape, "partial": past, "final": fs}
+        # OFFSET 2 / LIMIT 2 only bite on tables of >= 3 rows
+        data = "rows3" if (data_name == "small" and (s["f"]["off"] >= 2 or s["f"]["lim"] == 2)) else data_name
+        rec = {"kind": "plan", "q": s["q"], "usesd": s["usesd"], "data": data, "table": table, "shape": shape, "partial": past, "final": fs}
         key = json.dumps(rec, sort_keys=True)
         if key in by_key:
             rec_stmts[by_key[key]].append(s)
@@ -427,10 +429,14 @@ def conformance(ctx, stmts, plan_sel, e2e_sel, data_name, st, max_records=None, 
             for s in ss:
                 if any(nm in WRONG_ROWS for nm in s["known"]):
                     st["known_not_reproduced"] = st.get("known_not_reproduced", 0) + 1
+                    if len(st.setdefault("known_not_reproduced_eg", [])) < 6:
+                        st["known_not_reproduced_eg"].append({"sql": s["sql"], "strategy": r["shape"], "fragment_limit": r["partial"].get("limit")})
     for r in erecs:
         s, t, d, o = emeta[r["id"]]
         if r["id"] in sbad:
             st["single_node_answer_not_allowed"] = st.get("single_node_answer_not_allowed", 0) + 1
+            if len(st.setdefault("single_node_answer_not_allowed_eg", [])) < 4:
+                st["single_node_answer_not_allowed_eg"].append({"sql": s["sql"], "t": t, "d": d, "single_node": r["single"]})
         for dd in r["dist"]:
             if (r["id"], dd["n"]) in sens:
                 nontrivial += 1
@@ -457,10 +463,10 @@ def conformance(ctx, stmts, plan_sel, e2e_sel, data_name, st, max_records=None, 
 # ======================================================================================= model runs
 def model_jobs(tier):
     if tier == "quick":
-        return [("DistPlan_quick.cfg", "quick feature space x every table of <= 2 rows over {0,1} x {NULL,1,2}, 2 dimension tables, 2 shards")]
+        return [("DistPlan_quick.cfg", "quick feature space x every table (multiset of rows) of <= 2 rows over {0,1} x {NULL,1,2}, 2 dimension tables, 2 shards")]
     return [("DistPlan_thorough_small.cfg", "full feature space x every table of <= 2 rows, 4 dimension tables, 2 shards, refusals judged as gathers"),
-            ("DistPlan_thorough_rows3.cfg", "quick feature space x every table of <= 3 rows"),
-            ("DistPlan_thorough_nullkey.cfg", "quick feature space x every table of <= 2 rows with NULL keys and 0 values")]
+            ("DistPlan_thorough_rows3.cfg", "quick feature space x every table (multiset of rows) of <= 3 rows"),
+            ("DistPlan_thorough_nullkey.cfg", "quick feature space x every table (multiset of rows) of <= 2 rows with NULL keys and 0 values")]
 
 
 def run_models(ctx, tier, st):
@@ -634,6 +640,32 @@ def selftest_sub(ctx):
                 dropped = json.loads(json.dumps(good))
                 dropped["dist"][0]["rows"] = dropped["dist"][0]["rows"][1:]
                 add(dropped, "reject", f"one row of the distributed answer of `{s['sql']}` dropped")
+    # ---- planner mutations simulated on the planner's own OUTPUT TEXT (what a changed plan.rs would hand the coordinator):
+    # the texts go through the same parser / binder as real decisions
+    core = lambda f: f["src"] == "t" and f["sub"] == "none" and f["wrap"] == "none" and f["ord"] == "none" and f["lim"] == -1 and f["off"] == 0 \
+        and f["grpform"] == "col" and f["selx"] == "plain" and f["wh"] == 0
+    s_hcnt = find(lambda f: core(f) and f["fam"] == "agg" and f["grp"] == 1 and f["hav"] == "cnt" and [a["fn"] for a in f["aggs"]] == ["sum"])
+    s_avg = find(lambda f: core(f) and f["fam"] == "agg" and f["grp"] == 1 and f["hav"] == "none" and [(a["fn"], a["dist"]) for a in f["aggs"]] == [("avg", 0)])
+    s_cd = find(lambda f: core(f) and f["fam"] == "agg" and f["grp"] == 0 and f["hav"] == "none" and [(a["fn"], a["dist"]) for a in f["aggs"]] == [("count", 1)])
+    sims = [
+        (s_top, "TopN", "SELECT k, v FROM t ORDER BY v LIMIT 1", 'SELECT "k", "v" FROM qe_dist_partial ORDER BY "v" LIMIT 1 OFFSET 1', "small",
+         "fragment text pre-truncated to LIMIT instead of LIMIT+OFFSET"),
+        (s_cnt, "TwoPhase", "SELECT k AS qe_g0, COUNT(*) AS qe_a0 FROM t GROUP BY k", 'SELECT qe_g0 AS "k", COUNT(qe_a0) AS "a1" FROM qe_dist_partial GROUP BY qe_g0', "small",
+         "merge text counts the partial counts"),
+        (s_hcnt, "TwoPhase", "SELECT k AS qe_g0, SUM(v) AS qe_a0, COUNT(*) AS qe_a1 FROM t GROUP BY k HAVING COUNT(*) >= 2",
+         'SELECT qe_g0 AS "k", SUM(qe_a0) AS "a1" FROM qe_dist_partial GROUP BY qe_g0 HAVING SUM(qe_a1) >= 2', "small", "HAVING left in the fragment text"),
+        (s_avg, "TwoPhase", "SELECT k AS qe_g0, AVG(v) AS qe_a0 FROM t GROUP BY k", 'SELECT qe_g0 AS "k", AVG(qe_a0) AS "a1" FROM qe_dist_partial GROUP BY qe_g0', "rows3",
+         "AVG merged as the average of the shards' averages"),
+        (s_cd, "TwoPhase", "SELECT COUNT(DISTINCT v) AS qe_a0 FROM t", 'SELECT SUM(qe_a0) AS "a1" FROM qe_dist_partial', "small",
+         "COUNT(DISTINCT) scattered and summed"),
+        (s_hav, "TwoPhase", "SELECT k AS qe_g0, COUNT(*) AS qe_a0 FROM t GROUP BY k",
+         'SELECT qe_g0 AS "k", SUM(qe_a0) AS "a1" FROM qe_dist_partial GROUP BY qe_g0 HAVING SUM(qe_a0) >= 2', "small",
+         "(control) an exact two-phase plan for the HAVING statement the planner gathers"),
+    ]
+    for (s, shape, ptxt, ftxt, data, what) in sims:
+        shp, table, past, fs = pipeline_of({"k": "plan", "shape": shape, "table": "t", "partial_sql": ptxt, "final_sql": ftxt})
+        add({"kind": "plan", "q": s["q"], "usesd": s["usesd"], "data": data, "table": table, "shape": shp, "partial": past, "final": fs},
+            "accept" if what.startswith("(control)") else "reject", f"simulated plan text for `{s['sql']}`: {what}")
     rej, _, _, _ = trace_validate(ctx, recs, f"{NAME}-selftest", workers=4)
     for rid, (want, what) in expect.items():
         got = "reject" if rid in rej else "accept"
